@@ -188,7 +188,9 @@ pub fn finish(ctx: &Ctx, prop: &str, mut rep: Report, selfcheck: &[String]) -> i
         extra,
     };
     let ev = evidence_json(&meta, &rep.stats);
-    let evdir = ctx.root.join("evidence");
+    // VERIF_EVIDENCE_DIR / VERIF_REPLAY_DIR: only the mutation self-test sets these, so that runs
+    // against scratch copies never touch the evidence of the real tree
+    let evdir = std::env::var_os("VERIF_EVIDENCE_DIR").map(PathBuf::from).unwrap_or_else(|| ctx.root.join("evidence"));
     let _ = std::fs::create_dir_all(&evdir);
     let evpath = evdir.join(format!("{prop}.json"));
     if let Err(e) = std::fs::write(&evpath, serde_json::to_string_pretty(&ev).unwrap() + "\n") {
@@ -213,7 +215,7 @@ pub fn finish(ctx: &Ctx, prop: &str, mut rep: Report, selfcheck: &[String]) -> i
     );
 
     if !st.violations.is_empty() {
-        let dir = ctx.root.join("replays").join(prop);
+        let dir = std::env::var_os("VERIF_REPLAY_DIR").map(PathBuf::from).unwrap_or_else(|| ctx.root.join("replays")).join(prop);
         let _ = std::fs::create_dir_all(&dir);
         let mut seen = std::collections::BTreeSet::new();
         let mut printed = 0;
